@@ -157,9 +157,42 @@ def r17_3(prog, out):
             out.holds(key, bi.loc(bb), "widening cast, lossless")
             continue
         srckey = src.key()
+        # the operand may be min / max / clamp of the raw value with constants (`raw.min(600) as u64`): bound the raw value
+        # by the guards, then apply the expression
+        expr = None
+        if src.kind == "call" and not src.path:
+            from props.c05 import _value_expr, _pieces
+            base = {}
+
+            def is_base(o, base=base):
+                if o.kind in ("param", "upvar") or any(c[0].startswith("crate::pubsub_proto::") for c in o.cells()):
+                    if "k" not in base:
+                        base["k"] = o.key()
+                    return base["k"] == o.key()
+                return False
+            expr = _value_expr(bi, s.rv.ops[0], is_base)
+            if expr is not None and "k" in base and expr[0] in ("max", "min", "clamp"):
+                srckey = base["k"]
+            else:
+                expr = None
         w = IntervalWalker(prog, bid, lambda o: o.key() == srckey, frm)
         # interval of the input at the cast: walk from the entry of the guard region to the cast's block
         lo, hi = region_interval_at(prog, bi, w, bb)
+        if expr is not None and lo is not None:
+            vals = []
+            for (a, b2, pe) in _pieces(expr, lo, hi):
+                if pe[0] == "const":
+                    vals += [pe[1], pe[1]]
+                elif pe[0] == "input":
+                    vals += [a, b2]
+                else:
+                    vals = None
+                    break
+            if vals:
+                lo, hi = min(vals), max(vals)
+            else:
+                lo, hi = None, None
+                w.undecided_reason = "expression over the input not recognised"
         if lo is None:
             out.undecided(key, bi.loc(bb), "value range at the cast not determined (%s)" % w.undecided_reason)
         elif tlo <= lo and hi <= thi:
@@ -168,8 +201,9 @@ def r17_3(prog, out):
             # declared exception: the pull batch size (C15 documents the wrap and its consequence)
             if to == "u16" and any(f[1] == "max_messages" for f in proto):
                 out.holds(key, bi.loc(bb), "listed lossy cast: max_messages as u16 truncates (65536 -> 0 -> one message); it can only lower the batch bound (C15 R15.2)", nontrivial=True)
-            elif to == "i32" and frm == "u64" and "as_secs" in repr(src) or (frm == "u64" and to == "i32" and not proto):
-                out.holds(key, bi.loc(bb), "response-side cast of a stored duration")
+            elif to == "i32" and frm == "u64" and (not proto or (src.kind == "call" and not src.path and bi.call_at(src.data).callee is not None
+                                                                 and bi.call_at(src.data).callee.path == "std::time::Duration::as_secs")):
+                out.holds(key, bi.loc(bb), "response-side cast of a stored duration (seconds of a Duration built from a clamped i32, R04.3)")
             else:
                 out.violation(key, bi.loc(bb), "request value in [%d,%d] is cast %s -> %s without a guard: out-of-range values wrap silently" % (lo, hi, frm, to))
 
